@@ -35,7 +35,7 @@ _state = {'built': 0, 'configs': []}
 def _c16_base():
     """scratch area of the build matrix: per checked tree (a trial against a scratch worktree must not share a package
     directory or target directories with a run against /repo)"""
-    return os.path.join(OUT, 'c16') if build.REPO == '/repo' else os.path.join(build.DRIVER, 'c16')
+    return os.path.join(OUT, 'c16') if build.REPO == '/repo' else build.DRIVER.rstrip('/') + '-c16'
 
 
 def scratch_manifest():
@@ -59,7 +59,7 @@ def scratch_manifest():
 
 
 def _c16_tbase():
-    return os.path.join(VERIF, 'driver', 'target-c16') if build.REPO == '/repo' else os.path.join(build.DRIVER, 'target-c16')
+    return os.path.join(VERIF, 'driver', 'target-c16') if build.REPO == '/repo' else build.DRIVER.rstrip('/') + '-c16-target'
 
 
 def build_matrix(tier):
@@ -99,8 +99,9 @@ def _build_matrix(tier):
     for name, pname, rc, out in results:
         sr.evaluations += 1
         sr.events += 1
-        if rc != 0 and ('failed to parse manifest' in out or 'could not find `Cargo.toml`' in out or 'failed to read' in out
-                        or 'No space left' in out or 'Blocking waiting' in out and 'error' not in out):
+        if rc != 0 and 'could not compile' not in out:
+            # cargo failed before / outside compiling the crate (manifest, workspace, lock, disk): a harness problem, not a
+            # statement about the configuration
             sr.inconclusive.append('cargo could not start for configuration %s (%s): %s' % (name, pname, out.strip().splitlines()[0][:200] if out.strip() else 'no output'))
             continue
         if rc != 0:
@@ -127,6 +128,9 @@ def _build_matrix(tier):
             sr.evaluations += 1
             if rc != 0 and not any(r[0] == name and r[2] != 0 for r in results):
                 failed = [l for l in out.splitlines() if l.startswith('test ') and l.endswith('FAILED')][:5]
+                if not failed and 'could not compile' not in out:
+                    sr.inconclusive.append('cargo test could not run for configuration %s: %s' % (name, out.strip().splitlines()[0][:200] if out.strip() else 'no output'))
+                    continue
                 pr = Problem('C16', 'the crate\'s own test suite fails in configuration %s' % name, ' '.join(failed) or out[-300:])
                 pr.cmd = 'cargo test %s' % name
                 pr.variant = 'build-matrix'
